@@ -350,7 +350,7 @@ func (c *Ctx) Finish(verifDir string, evidencePath string, meta propMeta, seed i
 		"explanation": meta.Explanation + " NOT DECIDED: " + meta.NotDecided,
 		"obligations": len(c.obs), "discharged": discharged,
 		"evaluations": len(c.obs), "distinct_nontrivial": len(nontrivial),
-		"rule": "one obligation per (rule, function, construct) instance discovered in /repo's current source; non-trivial = the verdict needed a path, slice, call-graph or table computation; distinct by rule+key",
+		"rule":    "one obligation per (rule, function, construct) instance discovered in /repo's current source; non-trivial = the verdict needed a path, slice, call-graph or table computation; distinct by rule+key",
 		"samples": samples, "rules": rules, "instances": allInst,
 		"known_findings_matched": knownHit,
 		"functions_analysed":     fnames,
